@@ -191,7 +191,7 @@ def _run_one(case, ctx):
     m0 = recipes.fresh(case["recipe"])
     if adapters.is_leaf(m0):
         raise monitor.OutOfScope()
-    graph, top, info = common.domain(m0, allow_prefixed=True)
+    graph, top, info = common.domain(m0, allow_prefixed=True, recipe=case["recipe"])
     if rng.random() < 0.3:
         # one model object, ONE assumption dict that the caller extends in place between the calls: each answer is about the dict as it is now
         m1 = recipes.fresh(case["recipe"])
